@@ -88,6 +88,10 @@ func verifCountNodes(tree any) int {
 	return n
 }
 
+// verifEntryPoint: which load entry point verifExerciseKnown uses (0 LoadFromData, 1 LoadFromDataWithPath,
+// 2 LoadFromURI through the reader); harnesses that vary it set it from a choice before exercising.
+var verifEntryPoint int
+
 func verifExercise(data []byte, allowExternal bool) { verifExerciseKnown(data, allowExternal, "", "") }
 
 // verifExerciseKnown: knownValidate / knownInternalize name a known finding that covers a
@@ -99,8 +103,23 @@ func verifExerciseKnown(data []byte, allowExternal bool, knownValidate, knownInt
 	verifKnownAt("C20-internalize-nil-map-entry", ".derefContent")
 	loader := NewLoader()
 	loader.IsExternalRefsAllowed = allowExternal
-	loader.ReadFromURIFunc = func(*Loader, *url.URL) ([]byte, error) { return nil, errors.New("no such file") }
-	doc, err := loader.LoadFromData(data)
+	rootLoc := &url.URL{Path: "/r/doc.json"}
+	loader.ReadFromURIFunc = func(_ *Loader, u *url.URL) ([]byte, error) {
+		if u.Path == rootLoc.Path && verifEntryPoint == 2 {
+			return data, nil
+		}
+		return nil, errors.New("no such file")
+	}
+	var doc *T
+	var err error
+	switch verifEntryPoint {
+	case 1:
+		doc, err = loader.LoadFromDataWithPath(data, rootLoc)
+	case 2:
+		doc, err = loader.LoadFromURI(rootLoc)
+	default:
+		doc, err = loader.LoadFromData(data)
+	}
 	verifAssert((doc != nil) == (err == nil), "C20: loading returns a document or an error")
 	if doc == nil {
 		return
@@ -126,6 +145,7 @@ func verifExerciseKnown(data []byte, allowExternal bool, knownValidate, knownInt
 
 //verif:harness id=C20 tier=quick,thorough witness=end,loaded steps=20000000 bounds="near-valid documents: a valid document using every object kind, mutated at one node (every node of its JSON tree, in document order) by replacing it with null / 3 / \"s\" / [] / {} / true / [{}] or removing it; LoadFromData, then Validate, json.Marshal, InternalizeRefs, json.Marshal on any returned document; assertions = no panic, termination within the step budget"
 func verifH_C20_mutations() {
+	verifEntryPoint = 0
 	var tree any
 	if json.Unmarshal([]byte(verifBaseDoc), &tree) != nil {
 		return
@@ -164,6 +184,7 @@ func verifH_C20_mutations() {
 
 //verif:harness id=C20 tier=quick,thorough witness=end steps=20000000 bounds="adversarial reference graphs: for every ordered pair of component kinds (9x9) a component of the first kind referring to a component of the second (wrong kind when they differ), self references, mutual cycles across kinds, the same reference text used at two positions of different kinds, dangling targets, empty {} components and null map entries; LoadFromData, Validate, Marshal, InternalizeRefs; assertions = no panic, termination"
 func verifH_C20_refgraphs() {
+	verifEntryPoint = verifChoose("entry", 3) // LoadFromData / LoadFromDataWithPath / LoadFromURI
 	k1 := verifKinds[verifChoose("k1", len(verifKinds))]
 	k2 := verifKinds[verifChoose("k2", len(verifKinds))]
 	shape := verifChoose("shape", 6)
@@ -228,8 +249,9 @@ func verifH_C20_refgraphs() {
 	verifReach("end")
 }
 
-//verif:harness id=C20 tier=quick,thorough witness=end,loaded steps=20000000 bounds="references at every schema keyword position (not, allOf, oneOf, anyOf, items, properties, additionalProperties) x 24 targets (incl. six fragments into members the target does not have): self reference through the position, pure-reference cycle, dangling, and fragments that drill into arrays and maps at, beyond and below their bounds (allOf/0, /1 = length, /2, /-1, /x, required/0, enum/1, empty token, '#/', '#', a scalar's child) x external references allowed or not; load, validate, serialise, internalise, serialise: no panic"
+//verif:harness id=C20 tier=quick,thorough witness=end,loaded steps=20000000 bounds="references at every schema keyword position (not, allOf, oneOf, anyOf, items, properties, additionalProperties) x load entry point in {LoadFromData, LoadFromDataWithPath, LoadFromURI} x 24 targets (incl. six fragments into members the target does not have): self reference through the position, pure-reference cycle, dangling, and fragments that drill into arrays and maps at, beyond and below their bounds (allOf/0, /1 = length, /2, /-1, /x, required/0, enum/1, empty token, '#/', '#', a scalar's child) x external references allowed or not; load, validate, serialise, internalise, serialise: no panic"
 func verifH_C20_schema_refs() {
+	verifEntryPoint = verifChoose("entry", 3) // LoadFromData / LoadFromDataWithPath / LoadFromURI
 	pos := verifChoose("position", 7)
 	targets := []string{
 		"#/components/schemas/S",          // back to the schema that contains the reference
@@ -285,6 +307,7 @@ func verifH_C20_schema_refs() {
 
 //verif:harness id=C20 tier=quick,thorough witness=end,loaded steps=20000000 depth=3000 bounds="structurally recursive documents: an untyped schema that contains itself (through properties / items / additionalProperties / allOf / not) with a default, an example or an enum; a callback whose operation uses the same callback again; a path item / operation reached through nested callbacks two levels deep; load, validate, serialise, internalise, serialise: no panic and no unbounded recursion"
 func verifH_C20_recursive() {
+	verifEntryPoint = 0
 	var comps string
 	shape := verifChoose("shape", 8)
 	// known findings, identified by the input: unbounded recursion through a self-containing
@@ -320,6 +343,7 @@ func verifH_C20_recursive() {
 
 //verif:harness id=C20 tier=quick,thorough witness=end,loaded bounds="server URL texts with odd braces (14 texts: {, }, }{, {}, {a, a}, {a}{, }a{, {{a}}, {a}{a}, https://}r{.example.com, https://{a}.example.com/{b, /{a}/}{, empty) at document / path-item / operation level, with variables {a} declared or not: load, validate, serialise, internalise, serialise again; assertion = no panic"
 func verifH_C20_server_urls() {
+	verifEntryPoint = 0
 	texts := []string{"{", "}", "}{", "{}", "{a", "a}", "{a}{", "}a{", "{{a}}", "{a}{a}", "https://}r{.example.com", "https://{a}.example.com/{b", "/{a}/}{", ""}
 	srv := `{"url":"` + texts[verifChoose("url", len(texts))] + `"`
 	if verifChoose("vars", 2) == 1 {
@@ -342,6 +366,7 @@ func verifH_C20_server_urls() {
 
 //verif:harness id=C20 tier=quick,thorough witness=end steps=20000000 bounds="a reference to the wrong kind of object met while its target is still being resolved: component X of kind K1 is a reference to component Y of the same kind, and inside Y a position of another kind K2 (a header / schema / example / link of a response, a schema / example of a parameter or header, a schema of a request body) refers back to X or Y: loading fails or succeeds but never panics (9 nestings x 2 targets x both reference orders)"
 func verifH_C20_wrong_kind_in_progress() {
+	verifEntryPoint = verifChoose("entry", 3) // LoadFromData / LoadFromDataWithPath / LoadFromURI
 	type nest struct{ kind, inner string }
 	nests := []nest{
 		{"responses", `{"description":"d","headers":{"H":%s}}`},
